@@ -192,3 +192,81 @@ func HarnessC04UnaryCut() {
 		check(!errors.Is(err, io.EOF) || kind == 0, "a transport failure is not reported as a clean end")
 	}
 }
+
+// HarnessC04HandlerCut: a handler never sees a clean end of the request
+// stream when the request body failed or stopped inside a frame.
+//
+//verif:harness property=C04
+func HarnessC04HandlerCut() {
+	msgs := c04Messages()
+	body, frameEnds := c04Body(1, msgs) // requests carry no terminator frame
+	cut := nondetInt("cut")
+	assume(cut >= 0 && cut <= len(body))
+	kind := nondetChoice("kind", 3)
+	proto := nondetChoice("proto", 2)
+	fr := &faultReader{data: body, cut: cut, kind: kind}
+	pool := newBufferPool()
+	req := &http.Request{Body: fr, Header: make(http.Header)}
+	er := envelopeReader{reader: fr, codec: &byteCodec{}, bufferPool: pool}
+	var inner handlerConnCloser
+	if proto == 0 {
+		inner = &connectStreamingHandlerConn{request: req, unmarshaler: connectStreamingUnmarshaler{envelopeReader: er}, responseTrailer: make(http.Header)}
+	} else {
+		inner = &grpcHandlerConn{request: req, bufferPool: pool, unmarshaler: grpcUnmarshaler{envelopeReader: er}, responseHeader: make(http.Header), responseTrailer: make(http.Header)}
+	}
+	stream := &ClientStream[[]byte]{conn: wrapHandlerConnWithCodedErrors(inner)}
+	var got [][]byte
+	calls := 0
+	for stream.Receive() {
+		got = append(got, append([]byte{}, *stream.Msg()...))
+		calls++
+		if calls > len(msgs)+2 {
+			check(false, "the receive loop terminates")
+			return
+		}
+	}
+	check(isPrefixOf(got, msgs), "messages delivered to the handler are a prefix of those sent")
+	if stream.Err() == nil {
+		onBoundary := false
+		for _, e := range frameEnds {
+			onBoundary = onBoundary || e == cut
+		}
+		check(kind == 0, "a handler never sees a clean end of stream after a transport failure")
+		check(onBoundary, "a handler never sees a clean end of stream when the body stopped inside a frame")
+	} else {
+		check(codedNonZero(stream.Err()), "a failed request stream reports a coded non-OK error")
+	}
+}
+
+// HarnessC04WriteFault: if the k-th write to the transport fails, sending
+// reports a coded error, never success.
+//
+//verif:harness property=C04
+func HarnessC04WriteFault() {
+	msg := nondetBytes("msg", bound("msgLen", 2, 3))
+	failAt := nondetInt("failAt")
+	assume(failAt >= 1 && failAt <= 2)
+	sink := &byteSink{failAt: failAt, err: errOpaqueTransport}
+	variant := nondetChoice("variant", 2)
+	var err *Error
+	if variant == 0 {
+		ew := envelopeWriter{writer: sink, codec: &byteCodec{}, bufferPool: newBufferPool()}
+		err = ew.Marshal(&msg)
+	} else {
+		um := connectUnaryMarshaler{writer: sink, codec: &byteCodec{}, bufferPool: newBufferPool(), header: make(http.Header)}
+		err = um.Marshal(&msg)
+		if failAt == 2 {
+			// the unary body is written with a single Write
+			check(err == nil, "a unary body is written with one Write")
+			return
+		}
+	}
+	if failAt == 2 && len(msg) == 0 {
+		// an empty payload is not written at all (io.Copy of an empty buffer)
+		return
+	}
+	check(err != nil, "a failed transport write is never reported as success")
+	if err != nil {
+		check(err.Code() != 0, "a failed transport write reports a coded non-OK error")
+	}
+}
